@@ -323,6 +323,8 @@ def run(ctx):
             cls = s["op"]["cls"]; ctx.dist("class:" + cls)
             for a in ("node", "pass_ign", "pass_scal", "pass_starts"):
                 if s["op"][a]: ctx.dist("arg:" + a)
+            if s["changed"] and sorted(set(str(c) for c in s["changed"])) == ["opts"] and s["only_ext"]:
+                polluted_ext = True         # also within this very step: NumPathsOptimization builds several models from the same kwargs
             if s["exc"]:
                 ctx.count("E4_histories", "steps_raising")
                 # after an earlier step extended the shared external_safe_paths list (foreign source_/sink_ edges), a later model may fail
